@@ -436,6 +436,9 @@ func diffPath(a, b string) string {
 		return "unparseable"
 	}
 	p, _, _ := firstDiff(x, y, "")
+	if p == "" {
+		return "bytes-only" // equal as JSON values: an escape on one side, the character on the other (invalid UTF-8 in memory)
+	}
 	return p
 }
 
@@ -446,7 +449,11 @@ func jsonDiff(a, b string) string {
 	}
 	p, l, r := firstDiff(x, y, "")
 	if p == "" && l == nil && r == nil {
-		return "same JSON value, different bytes: " + clip(a, 200) + " | " + clip(b, 200)
+		note := ""
+		if strings.Contains(a, "\\ufffd") != strings.Contains(b, "\\ufffd") {
+			note = " (a \\ufffd escape on one side only: the value in memory is not valid UTF-8)"
+		}
+		return "same JSON value, different bytes" + note + ": " + clip(a, 200) + " | " + clip(b, 200)
 	}
 	lb, _ := json.Marshal(l)
 	rb, _ := json.Marshal(r)
